@@ -476,3 +476,26 @@ func TestPrintSpec(t *testing.T) {
 	b, _ := json.Marshal(spec)
 	fmt.Printf("SPEC:%s\n", b)
 }
+
+// TestRecheck runs the oracles again over the recorded trace of a replay file (VERIF_SPEC),
+// without executing anything: used to confirm a correction of an oracle on the very history
+// that raised the alarm.
+func TestRecheck(t *testing.T) {
+	p := os.Getenv("VERIF_SPEC")
+	if p == "" || os.Getenv("VERIF_RECHECK") == "" {
+		t.Skip("no VERIF_SPEC / VERIF_RECHECK")
+	}
+	b, err := os.ReadFile(p)
+	if err != nil {
+		t.Fatal(err)
+	}
+	var rf replayFile
+	if err := json.Unmarshal(b, &rf); err != nil || rf.Spec == nil || len(rf.Trace) == 0 {
+		t.Fatal("replay file without a trace", err)
+	}
+	res := h.Check(rf.Spec, rf.Trace)
+	for _, v := range res.Viol {
+		fmt.Printf("RECHECK %s %s %s\n", v.Prop, v.Sig, v.Detail)
+	}
+	fmt.Printf("RECHECK done: %d violation(s) over %d events\n", len(res.Viol), len(rf.Trace))
+}
